@@ -48,8 +48,8 @@ structure Codec where
 /-! ## fragment names (`fragment_name`) -/
 
 inductive Frag
-  | tru | fls | pk_k | pk_h | rawPkH | after | older | sha256 | hash256 | ripemd160 | hash160
-  | pk | pkh | rawPkh
+  | tru | fls | pk_k | pk_h | rawPkh | after | older | sha256 | hash256 | ripemd160 | hash160
+  | pk | pkh
   | and_v | and_b | and_n | andor | or_b | or_d | or_c | or_i
   | thresh | multi | sortedmulti | multi_a | sortedmulti_a
 deriving DecidableEq, Repr
@@ -57,12 +57,11 @@ deriving DecidableEq, Repr
 def Frag.name : Frag → List Char
   | .tru => ['1'] | .fls => ['0']
   | .pk_k => ['p','k','_','k'] | .pk_h => ['p','k','_','h']
-  | .rawPkH => ['e','x','p','r','_','r','a','w','_','p','k','_','h']
+  | .rawPkh => ['e','x','p','r','_','r','a','w','_','p','k','h']
   | .after => ['a','f','t','e','r'] | .older => ['o','l','d','e','r']
   | .sha256 => ['s','h','a','2','5','6'] | .hash256 => ['h','a','s','h','2','5','6']
   | .ripemd160 => ['r','i','p','e','m','d','1','6','0'] | .hash160 => ['h','a','s','h','1','6','0']
   | .pk => ['p','k'] | .pkh => ['p','k','h']
-  | .rawPkh => ['e','x','p','r','_','r','a','w','_','p','k','h']
   | .and_v => ['a','n','d','_','v'] | .and_b => ['a','n','d','_','b'] | .and_n => ['a','n','d','_','n']
   | .andor => ['a','n','d','o','r']
   | .or_b => ['o','r','_','b'] | .or_d => ['o','r','_','d'] | .or_c => ['o','r','_','c'] | .or_i => ['o','r','_','i']
@@ -71,8 +70,8 @@ def Frag.name : Frag → List Char
   | .multi_a => ['m','u','l','t','i','_','a']
   | .sortedmulti_a => ['s','o','r','t','e','d','m','u','l','t','i','_','a']
 
-/-- the names `FromTree` knows (`expr_raw_pk_h`, which `Display` prints for a bare `RawPkH`, is
-not among them) -/
+/-- the names `FromTree` knows, in the order of its `match`.  Since repo commit b17364cb every
+name `fragment_name` can return is among them (a bare `RawPkH` used to print as `expr_raw_pk_h`). -/
 def Frag.parseable : List Frag :=
   [.rawPkh, .pk, .pkh, .pk_k, .pk_h, .after, .older, .sha256, .hash256, .ripemd160, .hash160,
    .tru, .fls, .and_v, .and_b, .and_n, .andor, .or_b, .or_d, .or_c, .or_i,
@@ -94,12 +93,11 @@ def joinName (pre nm : List Char) : List Char := if pre.isEmpty then nm else pre
 def core (pre : List Char) (f : Frag) (cs : List Tree) : Tree :=
   .node (joinName pre f.name) (if cs.isEmpty then .none else .round) cs
 
-/-- `Check` over `PkK`/`PkH`/`RawPkH` is one fragment (`pk`, `pkh`, `expr_raw_pkh`) whose only
-child is the key -/
+/-- `Check` over `PkK`/`PkH` is one fragment (`pk`, `pkh`) whose only child is the key.
+`Check` over `RawPkH` is NOT folded (b17364cb): it prints as the wrapper `c:expr_raw_pkh(H)`. -/
 def sugarCheck (c : Codec) : Ms → Option (Frag × List Char)
   | .pkK k => some (.pk, c.showKey k)
   | .pkH k => some (.pkh, c.showKey k)
-  | .rawPkH h => some (.rawPkh, c.showRaw h)
   | _ => none
 
 mutual
@@ -109,7 +107,7 @@ def toTreeW (c : Codec) (pre : List Char) : Ms → Tree
   | .fls => core pre .fls []
   | .pkK k => core pre .pk_k [leaf (c.showKey k)]
   | .pkH k => core pre .pk_h [leaf (c.showKey k)]
-  | .rawPkH h => core pre .rawPkH [leaf (c.showRaw h)]
+  | .rawPkH h => core pre .rawPkh [leaf (c.showRaw h)]
   | .after n => core pre .after [leaf (showNat n)]
   | .older n => core pre .older [leaf (showNat n)]
   | .hash kind h => core pre (hashFrag kind) [leaf (c.showHash kind h)]
@@ -341,7 +339,6 @@ def parseCore (c : Codec) (f : Frag) (cs : List Tree) (kids : List (R Ms)) : R M
   | .sortedmulti => keysThresh c 20 cs .sortedMulti
   | .multi_a => keysThresh c 999 cs .multiA
   | .sortedmulti_a => keysThresh c 999 cs .sortedMultiA
-  | .rawPkH => .error .name                              -- not a name the parser knows
 
 /-- one node: split the name, parse the fragment, apply the wrappers right to left -/
 def parseNode (c : Codec) (name : List Char) (cs : List Tree) (kids : List (R Ms)) : R Ms :=
